@@ -67,13 +67,17 @@ func (in *Interp) resetPath(prefix []int) {
 	in.depth = 0
 	in.curFrame = nil
 	in.Effects = nil
-	in.work, in.WorkMax = 0, 0
+	in.work, in.WorkMax, in.workOn = 0, 0, false
+	in.allocFatal, in.maxTerms = false, nil
 	in.SharedWrites = nil
 	in.sched = nil
 	in.GoroutinesStarted = 0
 	in.lastClock = nil
 	in.facts = in.facts[:0]
 	in.factMap = map[string]bool{}
+	in.dom = map[string]domain{}
+	in.entangled = map[string]bool{}
+	in.domTrail = in.domTrail[:0]
 	in.clockN = 0
 	in.Solver.PopTo(0)
 	in.Solver.Push()
@@ -116,6 +120,9 @@ func (in *Interp) runPath(fn *ssa.Function, prefix []int, model map[string]Model
 				}
 			case "work":
 				in.recordViolation("work", "unmetered-work", e.Msg, nil)
+			case "fatal":
+				h.PanicsSeen[e.Msg]++
+				in.recordViolation("panic", "panic", e.Msg, nil)
 			case "unsupported":
 				h.Unsupported[e.Msg]++
 			case "diverged":
@@ -191,7 +198,23 @@ func (in *Interp) recordViolation(kind, label, msg string, extra *Term) *Violati
 		in.Solver.Assert(extra)
 	}
 	r := in.Solver.Check()
-	if r == Sat && kind == "work" {
+	if r == Sat {
+		// sizes of unbounded allocations: the native confirmation needs them huge
+		for _, mt := range in.maxTerms {
+			if mt.S.K != SBV || mt.S.W != 64 {
+				continue
+			}
+			for _, sh := range []uint{45, 40, 34} {
+				c := BVCmp(OpBVSle, BVConst(uint64(1)<<sh, 64), mt)
+				if in.Solver.CheckWith(c) == Sat {
+					in.Solver.Assert(c)
+					break
+				}
+			}
+		}
+		r = in.Solver.Check()
+	}
+	if r == Sat && (kind == "work" || in.Solver.MaxInts) {
 		// the native confirmation of unmetered work is a run that does not
 		// finish: prefer a model with large 64-bit inputs
 		for _, nd := range in.nondets {
@@ -538,6 +561,15 @@ func registerHarnessIntrinsics(in *Interp, pkgPath string) {
 		}
 		in.sched.quiesce()
 		return BVConst(uint64(in.sched.live()), 64)
+	})
+	reg("verifAllocFatal", func(in *Interp, fr *Frame, a []V) V {
+		in.allocFatal = true
+		return nil
+	})
+	reg("verifWorkReset", func(in *Interp, fr *Frame, a []V) V {
+		in.work, in.WorkMax = 0, 0
+		in.workOn = in.WorkBound > 0
+		return nil
 	})
 	reg("verifWorkMax", func(in *Interp, fr *Frame, a []V) V {
 		w := in.WorkMax
